@@ -1340,7 +1340,7 @@ _FAMILY_FUNCS = {
     "stack": (g_stack, 5), "unstack": (g_unstack, 4), "expand_dims": (g_expand_dims, 3), "squeeze": (g_squeeze, 3),
     "permute_dims": (g_permute_dims, 4), "moveaxis": (g_moveaxis, 2), "reshape": (g_reshape, 6),
     "broadcast_to": (g_broadcast_to, 3), "rechunk": (g_rechunk, 5), "matmul": (g_matmul, 4), "tensordot": (g_tensordot, 3),
-    "outer": (g_outer, 2), "vecdot": (g_vecdot, 3), "where": (g_where, 4), "clip": (g_clip, 3),
+    "outer": (g_outer, 2), "vecdot": (g_vecdot, 5), "where": (g_where, 4), "clip": (g_clip, 3),
     "searchsorted": (g_searchsorted, 3), "pad": (g_pad, 3), "tri": (g_tri, 3), "qr": (g_qr, 3), "astype": (g_astype, 3),
     "diff": (g_diff, 2), "count_nonzero": (g_count_nonzero, 2),
 }
